@@ -37,6 +37,7 @@ ASSUMPTIONS = [
 RULE += (' ' + 'Round 7: named tuples of plain literals (retyped to plain tuples by nt_to_tuple).')
 RULE += (' ' + 'Round 6: a parameter whose default is a sentinel object compared by identity: unset, explicit, and a copy (deepcopy / pickle / copy / copy_with / deepcopy_with / identity traversal) of the unset one are pairwise equal.')
 BUDGET = {'quick': 16 * 500, 'thorough': 16 * 12000}
+RULE += (' ' + 'Round 8: a mutable default left unset at 2-3 sites is equal to one explicit equal list shared by those sites and unequal to separate equal lists (the builds differ in sharing).')
 FLOORS = {'alias_only_pair': 0.03, 'mixed_key_dict': 0.012, 'explicit_default': 0.05, 'r1_intern_redirect': 0.013}
 
 PRESERVING = ['deepcopy', 'pickle', 'rebuild', 'explicit_default', 'dict_reorder', 'history',
@@ -76,6 +77,11 @@ def strategy_(draw, tier):
     return {'sentinel_default': True, 'op': draw(st.sampled_from(_SENTINEL_OPS)),
             'wrap': draw(st.sampled_from(['none', 'list', 'child', 'dict'])),
             'x': draw(leaves.leaf('plain')), 'bt': draw(st.sampled_from(['Config', 'Partial']))}
+  if draw(st.sampled_from(range(25))) == 1:
+    # round 8: a mutable default left unset at several sites (the built objects alias the one
+    # default object) vs one explicit equal list shared by the sites vs separate equal lists
+    return {'mutable_default_sites': True, 'sites': draw(st.integers(2, 3)),
+            'wrap': draw(st.sampled_from(['args', 'list'])), 'bt': draw(st.sampled_from(['Config', 'Partial']))}
   if draw(st.floats(0, 1)) < 0.08:
     # aliases inside a nested Buildable whose targets are first visited through earlier
     # arguments of the root
@@ -531,10 +537,50 @@ def check_sentinel_default(case, out):
   return out
 
 
+def check_mutable_default_sites(case, out):
+  out.cls('mutable_default_sites')
+  out.nontrivial = True
+  bt = getattr(fdl, case['bt'])
+  n = case['sites']
+
+  def mk(how):
+    sites = [bt(things.mutdef1, other=f's{i}') for i in range(n)]
+    if how == 'shared':
+      lst = ['single-default']
+      for s in sites:
+        s.a = lst
+    elif how == 'separate':
+      for s in sites:
+        s.a = ['single-default']
+    if case['wrap'] == 'list':
+      return fdl.Config(things.h1, a='root', b=sites)
+    return fdl.Config(things.h1, a='root', **dict(zip(['b', 'c', 'd'], sites)))
+
+  unset, shared, separate = mk('unset'), mk('shared'), mk('separate')
+  feat = f'mutable-default-sites:{case["wrap"]}'
+  res = {}
+  for name, (p, q) in {'us': (unset, shared), 'su': (shared, unset), 'up': (unset, separate), 'pu': (separate, unset),
+                       'sp': (shared, separate), 'ps': (separate, shared)}.items():
+    e = _eq(p, q)
+    if e[0] == 'raises':
+      out.add('eq-raises', exc_kind(e[1]), fiddle_frame(e[1]), feat, f'{name}: {e[1]!r}')
+      return out
+    res[name] = bool(e[1])
+  if not res['us'] or not res['su']:
+    out.add('preserving-rewrite-unequal', 'mismatch', '', feat + ':explicit_default',
+            'default left unset at every site vs one equal explicit list shared by the sites (same built sharing)')
+  if res['up'] or res['pu'] or res['sp'] or res['ps']:
+    out.add('breaking-rewrite-equal', 'mismatch', '', feat + ':separate',
+            f'configs whose builds differ in sharing compare equal: {res}')
+  return out
+
+
 def check(case):
   out = Outcome()
   if case.get('sentinel_default'):
     return check_sentinel_default(case, out)
+  if case.get('mutable_default_sites'):
+    return check_mutable_default_sites(case, out)
   x_rec = case['recipe']
   y_rec, post1, k1 = rewrite(x_rec, case['r1'][0], case['r1'][1])
   z_rec, post2, k2 = rewrite(y_rec, case['r2'][0], case['r2'][1])
